@@ -134,7 +134,7 @@ PROPS["C07"] = {
                  "params": {"CIs": "{1, 5}", "Outcomes": '{"ok", "refuse", "timeout"}', "Ticks": "{7, 61}", "ReachLen": 14, "SufLen": 1}},
                 {"module": "HealthSchedGen", "cfg": "HealthSched_sim.cfg", "simulate": {"num": 2500, "depth": 40},
                  "params": {"CIs": "{1, 5, 20}", "Outcomes": _ALLOUT, "Ticks": "{7, 31, 61}", "ReachLen": 30, "SufLen": 0}},
-            ]},
+            ], "sample": 30000},
             "pkg": "internal/adapter/health", "test": "TestVerif_HealthSched", "harness_files": ["sched_test.go", "breaker_test.go"],
             "trace": {"module": "HealthSchedTrace", "cfg": "HealthSched_trace.cfg"},
             "nontrivial": lambda s: any((isinstance(x, list) and x[0] in ("SetBackend", "Start") and x[-1] != "ok") or x == "ProxyFailure" for x in s),
